@@ -65,7 +65,7 @@ TEXTS = {
                 "API of the finished ontology (every resolving iterator of every term and record, each of which panics on an id that does not "
                 "resolve) returns. The check runs every "
                 "generated call history twice on the real Builder (with and without its failing calls), demands identical read-API dumps, "
-                "exact error codes (fails iff an absent term is named), a panic-free complete read-API walk, and agreement with the model.",
+                "exact error codes (fails iff an absent term is named), a panic-free complete read-API walk, and agreement with the model. NO DANGLING IDS ON EVERY CONSTRUCTION PATH: C15_wellformed_ontologies_walk_returns (any ontology with exact caches, children = parents^-1, inherited annotation sets and records naming stored terms), hence C15_jax_ontologies_walk_returns, C15_sub_ontologies_walk_returns, C15_binary_ontologies_walk_returns.",
         "design_ref": "DESIGN.md §4 C15, §9", "note": NOTE_COMMON, "technique": TECH,
     },
     "C16": {
@@ -85,7 +85,7 @@ TEXTS = {
                 "categories ascending, build_with_defaults errs iff a root is missing; root ids regenerated from the source; for every "
                 "Builder-built ontology 'ancestors' is the transitive closure of the is_a links (C19_builder_is_modifier, "
                 "C19_builder_categories). Tied to the crate "
-                "by correspondence and by evaluating spec_C19 on the crate's observations.",
+                "by correspondence and by evaluating spec_C19 on the crate's observations. The same for EVERY ontology with exact caches (C19_is_modifier_exact_caches, C19_categories_exact_caches): JAX loads, sub-ontologies and accepted binary files are such.",
         "design_ref": "DESIGN.md §4 C19", "note": NOTE_COMMON, "technique": TECH,
     },
     "C04": {
@@ -270,7 +270,7 @@ TEXTS = {
                 "between that union and the node's set (set_to_last yields the new set paired with every live set, in order); "
                 "C17_initial_matrix: the run starts from the user's distance of every pair of input sets (each pair asked once: "
                 "C17_initial_pairs_each_once). The replay additionally checks per merge that no live pair is closer, the reported distance, and the "
-                "method-specific update (min / max / mean / user distance on the union); the transcription is diffed bit for bit.",
+                "method-specific update (min / max / mean / user distance on the union); the transcription is diffed bit for bit. THE MODEL'S RUN RETURNS A DENDROGRAM (C17_run_returns_a_dendrogram, every number type / distance / method): n-1 merges, merge k has lhs < rhs < n+k and size = sum of its parts, every node 0..2n-3 is merged exactly once, the last merge has size n, indicies is a permutation of 0..n-1.",
         "design_ref": "DESIGN.md §4 C17, §9",
         "note": NOTE_COMMON + "Axioms: the four standard-library axioms behind Coq Reals (via Flocq's binary32 in the replay's distance type). HashMap order: on a tie the crate may merge another minimal pair than the model; such runs are decided by the replay only.",
         "technique": TECH,
